@@ -29,6 +29,13 @@ BUILT: dict[str, dict[str, str]] = {
         note="Trusts mpmath and SciPy as references; tolerances calibrated on the unchanged tree (max observed errors are in the evidence).",
         ref="DESIGN.md 3/C18",
     ),
+    "C16": dict(
+        technique="property-based testing (Hypothesis): generated pruner configurations and interleaved training-curve programs run through ask/report/should_prune/tell; safety oracle derived from the docstrings, exact oracle for Threshold/Nop, metamorphic replay under a trial-id offset; exhaustive enumeration of the two integer helpers",
+        category="exploration",
+        text="Generated-history search: every should_prune decision of thousands of interleaved studies is checked against the protections the pruner documents (warm-up, start-up, interval, n_min_trials, first rung, patience window, champion), the Threshold pruner against an exact model, and Hyperband brackets/decisions against a replay with different trial ids and trial contents. Absence of counterexamples in the explored region only.",
+        note="In-memory storage; weakest reading of ambiguous docstrings (see evidence assumptions).",
+        ref="DESIGN.md 3/C16",
+    ),
 }
 
 NOT_YET: dict[str, str] = {}
